@@ -52,9 +52,15 @@ Proof.
     + intros (s' & [<-|H1] & H2); eauto.
 Qed.
 
+Lemma In_vxor p a b : In p (vxor a b) <-> (In p a /\ ~ In p b) \/ (In p b /\ ~ In p a).
+Proof. unfold vxor. rewrite in_app_iff, !In_vdiff. reflexivity. Qed.
+
+Lemma vox_in_dec p (l : list vox) : In p l \/ ~ In p l.
+Proof. destruct (vmem p l) eqn:E; [left; apply vmem_In; assumption|right; rewrite <- vmem_In; congruence]. Qed.
+
 Lemma VoxLaws : CsgLaws VoxOps.
 Proof.
-  constructor; unfold VoxOps; cbn [sol tr eqS union inter diff empty compose mone mmul m_is_one act bigU].
+  constructor; unfold VoxOps; cbn [sol tr eqS union inter diff empty compose dj mone mmul m_is_one act bigU].
   - split; [intros a p; reflexivity|intros a b H p; symmetry; apply H|intros a b c H1 H2 p; rewrite H1; apply H2].
   - intros a a' Ha b b' Hb p. rewrite !In_vunion, Ha, Hb. reflexivity.
   - intros a a' Ha b b' Hb p. rewrite !In_vinter, Ha, Hb. reflexivity.
@@ -84,7 +90,16 @@ Proof.
     split; intros (q & E & H); exists q; (split; [|assumption]); rewrite <- E; [symmetry|]; apply apply_tr_app.
   - intros a p. rewrite map_id. reflexivity.
   - intros m a H p. destruct m; [|discriminate]. cbn. rewrite map_id. reflexivity.
-  - intros l _ p. reflexivity.
+  - intros a b H p Hb Ha. exact (H p Ha Hb).
+  - (* juxtaposition of pairwise disjoint cell sets is their union *)
+    induction l as [|s l IH]; intros Hpd p; [reflexivity|].
+    destruct Hpd as [Hs Hl]. cbn [fold_right pairwise_disjoint] in *.
+    change (In p (vxor s (fold_right vxor [] l)) <-> In p (vunion s (fold_right vunion [] l))).
+    rewrite In_vxor, In_vunion. specialize (IH Hl p). cbn [sol VoxOps] in IH.
+    assert (Hd : In p s -> In p (fold_right vunion [] l) -> False).
+    { intros H1 H2. apply In_bigU_vox in H2. destruct H2 as (s' & Hs' & Hp).
+      rewrite Forall_forall in Hs. exact (Hs s' Hs' p H1 Hp). }
+    rewrite IH. destruct (vox_in_dec p s); tauto.
 Qed.
 
 (* bounding boxes of the cells really bound them, so boxes that do not overlap
@@ -112,9 +127,8 @@ Proof. destruct s as [|[[x y] z] r]; [intros []|discriminate]. Qed.
 
 Lemma vovl_sound : ovl_sound VoxOps vovl.
 Proof.
-  intros [sa ma] [sb mb] H. unfold disjoint. intros p. split; [|intros []].
-  intros Hp. change (In p (vinter (map (apply_tr ma) sa) (map (apply_tr mb) sb))) in Hp.
-  apply In_vinter in Hp. destruct Hp as [Ha Hb].
+  intros [sa ma] [sb mb] H. unfold disjoint. cbn [dj VoxOps]. intros p Ha Hb.
+  change (In p (map (apply_tr ma) sa)) in Ha. change (In p (map (apply_tr mb) sb)) in Hb.
   unfold vovl in H. cbn [fst snd] in H.
   destruct (vbounds (map (apply_tr ma) sa)) as [[[[[[a0 a1] a2] a3] a4] a5]|] eqn:Ea.
   2:{ exact (vbounds_in _ _ Ha Ea). }
